@@ -282,6 +282,11 @@ def it_next(M, fr, it):
                 r = M.call_closure(fr, it.f[1], [x]) if it.f[1] is not None else x
                 it.f[2] = to_iter(M, fr, r)
         if k == 'Chars': return chars_next(M, fr, it)
+        if k.endswith('ops::Range') or k == 'Range':
+            lo, hi = simp(it.f[0]), simp(it.f[1])
+            if is_sym(lo) or is_sym(hi): raise Unsupported('symbolic range iteration')
+            if lo < hi: it.f[0] = lo + 1; return True, lo
+            return False, None
         if k == 'it:range':
             lo, hi = it.f
             if is_sym(lo) or is_sym(hi): raise Unsupported('symbolic range iteration')
@@ -291,7 +296,7 @@ def it_next(M, fr, it):
 
 def to_iter(M, fr, v):
     if isinstance(v, (IterV,)): return v
-    if isinstance(v, Agg) and (v.name.startswith('it:') or v.name == 'Chars'): return v
+    if isinstance(v, Agg) and (v.name.startswith('it:') or v.name == 'Chars' or v.name.endswith('ops::Range')): return v
     if isinstance(v, VecV): return IterV(v.items)
     if isinstance(v, Agg) and v.name == '[]': return IterV(list(v.f))
     if isinstance(v, EnumV) and v.name == 'Option': return IterV([v.f[0]] if v.disc == 1 else [])
